@@ -19,10 +19,12 @@ PERVASIVE = {
 }
 
 C19_SITES = {
+    "layers/prism.go:22": "PrismHeader: decodePrismValue slices data[8:8+Length] of a 12-byte value record with the record's own 16-bit length field unchecked",
     "layers/lldp.go:896": "LinkLayerDiscovery: a TLV value is sliced with the 9-bit length of the TLV header without checking the remaining bytes",
 }
 
 C02 = [
+    (r"all:c02:reads-beyond-len:(TLS|after-TCP)$", "TLSHandshakeRecordClientHello.decodeFromBytes deliberately re-slices data = data[:cap(data)] and parses ClientHello fields from the bytes BEYOND the layer's length: under NoCopy these are the caller's foreign bytes, under Pool stale bytes of earlier packets (the repo's own TLS test fixture, whose IP length cuts the ClientHello, only decodes because of this over-read, so the line cannot be removed without editing tests)"),
     (r"all:c02:reads-beyond-len:(first-SFlow|after-UDP|SFlow.*)$", "same defect as all:c19:panic:layers/sflow.go:*, seen through NoCopy: with spare capacity behind the input the unguarded (*data)[:4] reads the caller's foreign bytes instead of panicking, so the packet depends on bytes beyond len(data)"),
     (r"all:c02:reads-beyond-len:(SCTP\w*|after-SCTP\w*)$", "same defect as all:c19:panic:layers/sctp.go:*, seen through NoCopy: unguarded fixed-offset reads of a chunk return bytes beyond len(data)"),
     (r"all:c02:reads-beyond-len:(OSPF\w*|after-IPv4|after-IPv6)$", "same defect as all:c19:panic:layers/ospf.go:* (or another unguarded decoder behind IP), seen through NoCopy: reads beyond len(data)"),
@@ -42,6 +44,9 @@ C07 = {
 }
 
 C06 = {
+    "IPv4": "IPv4: option padding bytes are kept in Padding but not re-emitted (DESIGN §5 C07 expected, per-layer engine); :Truncated — consequence of the TLS ClientHello over-read (all:c02:reads-beyond-len:TLS): the in-place decode is clean only because TLS reads beyond its slice, the exact-size re-decode is truncated",
+    "TCP": "TCP :Truncated — consequence of the TLS ClientHello over-read (all:c02:reads-beyond-len:TLS): the payload decodes cleanly in place only because TLS reads beyond its slice; re-decoded from exact-size bytes it is truncated",
+    "RADIUS": "RADIUS.SerializeTo with FixLengths writes each attribute length as len(Value) instead of len(Value)+2 (type and length bytes not counted), so the re-decode fails",
     "DNS": "DNS: records with empty RDATA come back with a zero address (nil IP serialised as 0.0.0.0 / ::), OPT/TXT variants are re-encoded differently",
     "Dot11": "Dot11: SerializeTo always writes a 24-byte header + FCS while the decoder uses 10/16/24/30-byte headers depending on type and flags; QOS/HT control and the checksum are not written back",
     "Dot11InformationElement": "Dot11InformationElement: ID 255 (extension) elements lose the extension id on serialisation",
